@@ -19,6 +19,11 @@ Record case := MkCase {
   c_enum : list N;                (* oracle: the order in which the directories were enumerated *)
   c_bdeps : bool;                 (* not -nobdeps *)
   c_complete : bool;              (* every VDB directory is in c_vdb (no two directories with one name and slot) *)
+  c_texts : list (list (option bytes));
+                                  (* per package of c_vdb: the texts of BDEPEND, DEPEND, RDEPEND, PDEPEND as they are
+                                     on disk -- Some for a file that is a PMS dependency string (its tree in c_vdb
+                                     is then the PMS reading of that text, checked by texts_ok below), None for an
+                                     absent file or a text outside the grammar *)
   c_obs : obs }.
 
 Definition lres_beq (a b : res (list bytes)) : bool :=
@@ -412,7 +417,86 @@ Definition wf_dict (n : nat) (vdb : list pkg) (x : bytes * option uatom) : bool 
   | None => true
   end.
 
-Definition wf (c : case) : bool :=
+(* ---- the trees of the case are the PMS readings of the dependency files (PMS 8.2)
+        items := item*
+        item  := atom | ( items ) | || ( items ) | ^^ ( items ) | ?? ( items ) | flag? ( items ) | !flag? ( items )
+   tokens separated by white space.  A group may be empty; an operator or a condition owns exactly the
+   parenthesised group that follows it.  The tie is stated with the PRINTER of the grammar: the token
+   sequence of the tree (atoms abstracted to "an atom word", with its blocker mark) equals the classified
+   token sequence of the text.  Proofs/C05T.v proves that this determines the tree (tie_unique).  The
+   atoms themselves -- name, installed matches -- stay an oracle (C13/C14). *)
+Inductive ptok := PAtom (blk : bool) | PTok (t : bytes).
+Definition ptok_beq (a b : ptok) : bool :=
+  match a, b with
+  | PAtom x, PAtom y => Bool.eqb x y
+  | PTok x, PTok y => beq x y
+  | _, _ => false
+  end.
+Definition is_c (n : N) (c : ascii) : bool := Ascii.eqb c (nb n).
+Definition alnum_c (c : ascii) : bool :=
+  let n := N_of_ascii c in
+  ((48 <=? n) && (n <=? 57) || (97 <=? n) && (n <=? 122) || (65 <=? n) && (n <=? 90))%N.
+(* PMS 3.1.4: [A-Za-z0-9+_@-]+, beginning with an alphanumeric character *)
+Definition flag_ok (f : bytes) : bool :=
+  match f with c :: _ => alnum_c c | [] => false end
+  && forallb (fun c => alnum_c c || is_c 43 c || is_c 95 c || is_c 64 c || is_c 45 c) f.
+Definition t_open : bytes := [nb 40].
+Definition t_close : bytes := [nb 41].
+Definition t_any : bytes := [nb 124; nb 124].
+Definition t_one : bytes := [nb 94; nb 94].
+Definition t_most : bytes := [nb 63; nb 63].
+Definition t_use (f : bytes) : bytes := f ++ [nb 63].
+Definition t_nuse (f : bytes) : bytes := nb 33 :: f ++ [nb 63].
+Definition intro_toks (k : gkind) : list ptok :=
+  match k with
+  | GAll => []
+  | GAny => [PTok t_any] | GOne => [PTok t_one] | GMost => [PTok t_most]
+  | GUse f => [PTok (t_use f)] | GNuse f => [PTok (t_nuse f)]
+  end.
+Fixpoint dep_ptoks (d : dep) : list ptok :=
+  match d with
+  | DAtom a => [PAtom (a_blk a)]
+  | DGrp k l => intro_toks k ++ PTok t_open :: flat_map dep_ptoks l ++ [PTok t_close]
+  end.
+Definition kind_ok (k : gkind) : bool :=
+  match k with GUse f | GNuse f => flag_ok f | _ => true end.
+Fixpoint flags_ok (d : dep) : bool :=
+  match d with
+  | DAtom _ => true
+  | DGrp k l => kind_ok k && forallb flags_ok l
+  end.
+(* a token of the text: one of the five fixed tokens, a condition "flag?" / "!flag?", else an atom word *)
+Definition is_cond (t : bytes) : bool :=
+  match rev t with
+  | c :: r => is_c 63 c && flag_ok (match rev r with c0 :: f => if is_c 33 c0 then f else rev r | [] => [] end)
+  | [] => false
+  end.
+Definition structural (t : bytes) : bool :=
+  beq t t_open || beq t t_close || beq t t_any || beq t t_one || beq t t_most || is_cond t.
+Definition classify_tok (t : bytes) : ptok :=
+  if structural t then PTok t else PAtom (match t with c :: _ => is_c 33 c | [] => false end).
+Definition tie (text : bytes) (l : list dep) : bool :=
+  forallb flags_ok l
+  && list_beq ptok_beq (map classify_tok (fields text)) (flat_map dep_ptoks l).
+Definition file_tied (f : dfile) (t : option bytes) : bool :=
+  match t with
+  | None => true
+  | Some text => match f with FDeps l => tie text l | _ => false end
+  end.
+Definition pkg_tied (p : pkg) (ts : list (option bytes)) : bool :=
+  match ts with
+  | [b; d; r; pd] => file_tied (p_bdep p) b && file_tied (p_dep p) d && file_tied (p_rdep p) r && file_tied (p_pdep p) pd
+  | _ => false
+  end.
+Fixpoint all_tied (vdb : list pkg) (ts : list (list (option bytes))) : bool :=
+  match vdb, ts with
+  | [], [] => true
+  | p :: r, t :: r' => pkg_tied p t && all_tied r r'
+  | _, _ => false
+  end.
+Definition texts_ok (c : case) : bool := all_tied (c_vdb c) (c_texts c).
+
+Definition wf_base (c : case) : bool :=
   let n := length (c_vdb c) in
   c_complete c
   && is_perm_ids n (c_enum c)
@@ -426,6 +510,7 @@ Definition wf (c : case) : bool :=
   && forallb (wf_dict n (c_vdb c)) (c_dict c)
   (* the parent chain is finite (no cycle) as far as it can be followed *)
   && match model_sys c with RDiverge => false | _ => true end.
+Definition wf (c : case) : bool := texts_ok c && wf_base c.
 
 (* known-finding classes (see KNOWN_FINDINGS).
    1: a package that can be selected has, active under its USE flags, an any-of / exactly-one-of /
